@@ -94,6 +94,12 @@ func (st *SymbolToken) Equal(o *SymbolToken) bool {
 // Parses text of the form '$n' for some integer n.
 func symbolIdentifier(symbolText string) (int64, bool) {
 	if len(symbolText) > 1 && symbolText[0] == '$' {
+		for i := 1; i < len(symbolText); i++ {
+			if symbolText[i] < '0' || symbolText[i] > '9' {
+				// A symbol identifier is '$' followed by decimal digits only; Atoi would also take a sign.
+				return SymbolIDUnknown, false
+			}
+		}
 		if sid, err := strconv.Atoi(symbolText[1:]); err == nil {
 			return int64(sid), true
 		}
